@@ -10,6 +10,8 @@ from __future__ import annotations
 import itertools
 import uuid
 
+import numpy as np
+
 from rv.core import scribble
 
 ANCHORS = ("geometry/operations.py",)
@@ -86,10 +88,23 @@ def _judge_once(ctx, n, edges, after_edit=False):
     eset = {frozenset(e) for e in edges}
     log = []
 
+    style = (n + 3 * len(edges)) % 5
+
     def cmp(a, b):
         ia, ib = pos.get(id(a), -1), pos.get(id(b), -1)
         log.append((ia, ib))
-        return frozenset((ia, ib)) in eset
+        r = frozenset((ia, ib)) in eset
+        # the answer in the forms a similarity function gives it: bool, numpy.bool_, an overlap fraction / a count
+        # (used for its truth value), None for "no"
+        if style == 1:
+            return np.bool_(r)
+        if style == 2:
+            return 0.4 if r else 0.0
+        if style == 3:
+            return 2 if r else 0
+        if style == 4:
+            return np.float64(0.25) if r else None
+        return r
 
     try:
         seqs = G.group_sound_events(tuple(evs) if (n + len(edges)) % 4 == 1 else evs, cmp)
